@@ -3,6 +3,7 @@ package engines
 import (
 	"bytes"
 	"fmt"
+	"strconv"
 	"strings"
 
 	cosmos_proto "github.com/cosmos/cosmos-proto"
@@ -220,6 +221,29 @@ func runC16(ctx *Ctx) {
 		}}
 	}, func(c *Case) error { return checkC16(ctx, c) })
 
+	// a SEQUENCE of packs: what an earlier call produced must not change when later
+	// calls run (scratch buffers, pools and caches shared between calls); encoded
+	// sizes sit on and around the powers of two such buffers are sized by
+	ctx.CheckRapid("sequence", per(20000, 160000), func(rt *rapid.T) *Case {
+		k := rapid.IntRange(2, 6).Draw(rt, "npacks")
+		var sizes, apis []string
+		for i := 0; i < k; i++ {
+			sz := rapid.OneOf(
+				rapid.Map(rapid.IntRange(4, 16), func(e int) int { return 1 << uint(e) }),
+				rapid.Map(rapid.IntRange(4, 16), func(e int) int { return 1<<uint(e) - 1 }),
+				rapid.Map(rapid.IntRange(4, 16), func(e int) int { return 1<<uint(e) + 1 }),
+				rapid.IntRange(0, 3000),
+			).Draw(rt, "size")
+			sizes = append(sizes, fmt.Sprint(sz))
+			apis = append(apis, rapid.SampledFrom([]string{"new", "marshalfrom", "reuse"}).Draw(rt, "api"))
+		}
+		return &Case{Sub: "sequence", Args: map[string]string{
+			"sizes": strings.Join(sizes, ","), "apis": strings.Join(apis, ","),
+			"src":  rapid.SampledFrom([]string{"wrapper", "generated", "dynamic"}).Draw(rt, "src"),
+			"opts": rapid.SampledFrom([]string{"zero", "deterministic", "allowpartial"}).Draw(rt, "opts"),
+		}}
+	}, func(c *Case) error { return checkC16(ctx, c) })
+
 	ctx.CheckRapid("failpack", per(5000, 40000), func(rt *rapid.T) *Case {
 		return &Case{Sub: "failpack", Args: map[string]string{
 			"src":  fmt.Sprint(rapid.IntRange(0, 4).Draw(rt, "src")),
@@ -280,8 +304,120 @@ func wellKnown(i int, n int64) proto.Message {
 	}
 }
 
+// sizedMessage builds a message of the wanted kind whose encoding is exactly
+// (or, where no length fits, nearly) size bytes long, filled with the byte fill.
+func sizedMessage(src string, size int, fill byte) proto.Message {
+	body := func(overhead int) []byte {
+		// tag + length prefix + n bytes == size
+		n := size - overhead - 1
+		for n > 0 && overhead+protowire.SizeVarint(uint64(n))+n > size {
+			n--
+		}
+		if n < 0 {
+			n = 0
+		}
+		b := make([]byte, n)
+		for i := range b {
+			b[i] = fill
+		}
+		return b
+	}
+	if src != "wrapper" {
+		for _, t := range model.Types() {
+			fds := t.Desc.Fields()
+			for i := 0; i < fds.Len(); i++ {
+				fd := fds.Get(i)
+				if fd.Kind() != protoreflect.BytesKind || fd.Cardinality() == protoreflect.Repeated || fd.ContainingOneof() != nil {
+					continue
+				}
+				d := t.NewD()
+				if b := body(protowire.SizeTag(fd.Number())); len(b) > 0 {
+					d.Set(fd, protoreflect.ValueOfBytes(b))
+				}
+				if src == "dynamic" {
+					return d
+				}
+				return model.BuildP(t, d.ProtoReflect())
+			}
+		}
+	}
+	return &wrapperspb.BytesValue{Value: body(1)}
+}
+
 func checkC16(ctx *Ctx, c *Case) error {
 	switch c.Sub {
+	case "sequence":
+		type packed struct {
+			a    *anypb.Any
+			url  string
+			val  []byte
+			src  proto.Message
+			what string
+		}
+		var hist []*packed
+		opts := c16opts(c.arg("opts"))
+		sizes, apis := strings.Split(c.arg("sizes"), ","), strings.Split(c.arg("apis"), ",")
+		verify := func(after string) error {
+			for i, h := range hist {
+				if h.a.TypeUrl != h.url || !bytes.Equal(h.a.Value, h.val) {
+					return fmt.Errorf("the Any produced by pack #%d (%s) changed %s: value was %d bytes %s, is now %d bytes %s", i, h.what, after, len(h.val), trunc(hexs(h.val), 40), len(h.a.Value), trunc(hexs(h.a.Value), 40))
+				}
+			}
+			return nil
+		}
+		for i := range sizes {
+			size, _ := strconv.Atoi(sizes[i])
+			m := sizedMessage(c.arg("src"), size, byte(0xA0+i))
+			want, err := proto.MarshalOptions{Deterministic: true}.Marshal(m)
+			if err != nil {
+				return fmt.Errorf("HARNESS: marshal failed: %v", err)
+			}
+			h := &packed{src: m, what: fmt.Sprintf("%s, %d bytes encoded", apis[i], len(want))}
+			switch {
+			case apis[i] == "new" && c.arg("opts") == "zero":
+				if h.a, err = anyutil.New(m); err != nil {
+					return fmt.Errorf("anyutil.New failed: %v", err)
+				}
+			case apis[i] == "reuse" && len(hist) > 0:
+				// an earlier Any is packed into again: it legitimately changes, and
+				// takes the place of its earlier entry in the history
+				k := int(digest(c.arg("sizes"), fmt.Sprint(i)) % uint64(len(hist)))
+				h.a = hist[k].a
+				hist = append(hist[:k:k], hist[k+1:]...)
+				if err := anyutil.MarshalFrom(h.a, m, opts); err != nil {
+					return fmt.Errorf("anyutil.MarshalFrom into a used Any failed: %v", err)
+				}
+			default:
+				h.a = &anypb.Any{}
+				if err := anyutil.MarshalFrom(h.a, m, opts); err != nil {
+					return fmt.Errorf("anyutil.MarshalFrom failed: %v", err)
+				}
+			}
+			if !bytes.Equal(h.a.Value, want) {
+				return fmt.Errorf("pack #%d (%s): value differs from the encoding of the source", i, h.what)
+			}
+			h.url, h.val = h.a.TypeUrl, append([]byte{}, h.a.Value...)
+			hist = append(hist, h)
+			if err := verify(fmt.Sprintf("when pack #%d (%s) ran", i, h.what)); err != nil {
+				return err
+			}
+		}
+		for i, h := range hist {
+			u, err := anyutil.Unpack(h.a, nil, nil)
+			if err != nil {
+				return fmt.Errorf("Unpack of pack #%d failed: %v", i, err)
+			}
+			_ = u
+			if err := verify(fmt.Sprintf("when pack #%d was unpacked", i)); err != nil {
+				return err
+			}
+		}
+		last := hist[len(hist)-1]
+		if u, err := anyutil.Unpack(last.a, nil, nil); err != nil || !proto.Equal(u, last.src) {
+			return fmt.Errorf("the last pack (%s) does not unpack to its source (err=%v)", last.what, err)
+		}
+		ctx.Nontrivial("sequence", c.arg("sizes"), c.arg("apis"), c.arg("src"), c.arg("opts"))
+		return nil
 	case "pack":
 		var m proto.Message
 		var wantCanon string
